@@ -64,3 +64,13 @@ Fixpoint Stacked (y : Q) (ls : list oline) : Prop :=
 (* total advance of a placed line: widths plus the widening of every space glyph *)
 Definition advance (emv : Z) (extra : Q) (v : list item) : Q :=
   (zq (sumw v) + zq (nspaces emv v) * extra)%Q.
+
+Definition fx (f : frag) : Q := match f with FT x _ | FA x _ => x end.
+Definition fw (f : frag) : Q := match f with FT _ w | FA _ w => w end.
+
+(* the fragments follow each other from lo to hi, in order, without overlapping *)
+Fixpoint chain (lo hi : Q) (fs : list frag) : Prop :=
+  match fs with
+  | [] => (lo <= hi)%Q
+  | f :: r => (lo <= fx f)%Q /\ (0 <= fw f)%Q /\ chain (fx f + fw f)%Q hi r
+  end.
